@@ -28,7 +28,7 @@ fn normalise_site(file: &str, line: u32) -> String {
     } else {
         f
     };
-    format!("{}:{}", f, line)
+    simcore::site::stable(f, line)
 }
 
 pub fn install_panic_hook() {
@@ -72,7 +72,7 @@ pub fn install_panic_hook() {
                     if let Some(r) = rest.strip_prefix("/repo/") {
                         let parts: Vec<&str> = r.split(':').collect();
                         if parts.len() >= 2 {
-                            repo_frame = Some(format!("{}:{}", parts[0], parts[1]));
+                            repo_frame = Some(simcore::site::stable_from_str(&format!("{}:{}", parts[0], parts[1])));
                             break;
                         }
                     } else if rest.contains("corruptsim/src/") && !rest.contains("guard.rs") {
